@@ -36,8 +36,13 @@ type Term struct {
 	Scrolled    int // lines scrolled off the top
 	Unknown     []string
 	Bells       int
-	savedX      int
-	savedY      int
+	// LaxEraseAtMargin selects the other common behaviour for "erase to end of line /
+	// screen" while a wrap is pending at the right margin: xterm and the VT100 erase the
+	// last cell (the cursor is on it); tmux and others treat the cursor as past it and
+	// erase nothing on that row. Screen oracles accept a picture if either model shows it.
+	LaxEraseAtMargin bool
+	savedX           int
+	savedY           int
 
 	// OnDSR is called (synchronously, from Write) when CSI 6 n is received.
 	OnDSR func(row, col int)
@@ -474,7 +479,9 @@ func (t *Term) csi(params string, final byte) {
 	case 'J':
 		switch arg(nums, 0, 0) {
 		case 0:
-			t.eraseLine(t.CY, t.CX, t.W)
+			if !(t.LaxEraseAtMargin && t.PendingWrap) {
+				t.eraseLine(t.CY, t.CX, t.W)
+			}
 			for y := t.CY + 1; y < t.H; y++ {
 				t.eraseLine(y, 0, t.W)
 			}
@@ -495,7 +502,9 @@ func (t *Term) csi(params string, final byte) {
 	case 'K':
 		switch arg(nums, 0, 0) {
 		case 0:
-			t.eraseLine(t.CY, t.CX, t.W)
+			if !(t.LaxEraseAtMargin && t.PendingWrap) {
+				t.eraseLine(t.CY, t.CX, t.W)
+			}
 		case 1:
 			t.eraseLine(t.CY, 0, t.CX+1)
 		case 2:
@@ -615,4 +624,211 @@ func (s *Snap) Line(y int) string {
 // Key returns a compact string identifying the visible state (for state hashing).
 func (s *Snap) Key() string {
 	return fmt.Sprintf("%dx%d@%d,%d,%v,%v,%d|%s", s.W, s.H, s.CX, s.CY, s.PendingWrap, s.Hidden, s.CursorStyle, strings.Join(s.Lines, "\n"))
+}
+
+// --- reference renderer (independent of the library's arithmetic) ---
+
+// Glyph is one expected glyph cell of the input area.
+type Glyph struct {
+	Row, Col int
+	R        rune
+	Comb     string
+	W        int
+}
+
+// Layout lays a buffer out from (0, c0) on a terminal of the given width the way a
+// VT100-compatible terminal shows it when it is printed from that cell: wrapping at the
+// width (a double-width glyph that does not fit in the last column wraps early, leaving
+// that column blank), a new row at column indent after every embedded newline, TAB as tab
+// blanks. It returns the glyph cells, the cell of the cursor position and the number of
+// rows used.
+func Layout(width, c0, indent int, buf []rune, cursor int, tab int) (cells []Glyph, cr, cc, rows int) {
+	row, col := 0, c0
+	cr, cc = -1, -1
+	mark := func() {
+		if cr < 0 {
+			cr, cc = row, col
+			if cc >= width {
+				cr, cc = row+1, 0
+			}
+		}
+	}
+	for i, r := range buf {
+		if r == '\n' {
+			if i == cursor {
+				mark()
+			}
+			row++
+			col = indent
+			continue
+		}
+		if r == '\t' {
+			for k := 0; k < tab; k++ {
+				if col+1 > width {
+					row++
+					col = 0
+				}
+				if i == cursor && k == 0 {
+					mark()
+				}
+				cells = append(cells, Glyph{row, col, ' ', "", 1})
+				col++
+			}
+			continue
+		}
+		w := RuneWidth(r)
+		if w == 0 {
+			if i == cursor {
+				mark()
+			}
+			if n := len(cells); n > 0 && cells[n-1].Row == row {
+				cells[n-1].Comb += string(r)
+			}
+			continue
+		}
+		if col+w > width {
+			row++
+			col = 0
+		}
+		if i == cursor {
+			mark()
+		}
+		cells = append(cells, Glyph{row, col, r, "", w})
+		col += w
+	}
+	if cursor >= len(buf) {
+		mark()
+	}
+	rows = row + 1
+	if col >= width {
+		// exact fill: the cursor (and any following output) goes to the next row
+		rows = row + 2
+	}
+	return cells, cr, cc, rows
+}
+
+// CheckInput compares the terminal with what it must show for a prompt whose last line is
+// promptLast (visible text) followed by buf with the cursor at index cursor: every cell of
+// the input area holds the expected glyph, the rest of the input rows and (unless
+// relaxedBelow: a hint or a menu is legitimately displayed) every row below is blank, and
+// the terminal cursor is on the cell of the buffer cursor. The input area is anchored on
+// the terminal cursor row, so text printed above the prompt does not matter. It returns ""
+// or "<class>: <description>".
+func CheckInput(t *Term, promptLast string, buf []rune, cursor int, relaxedBelow bool, tab int) string {
+	c0 := 0
+	for _, r := range promptLast {
+		c0 += RuneWidth(r)
+	}
+	if c0 >= t.W {
+		return "" // prompt as wide as the terminal: outside the model
+	}
+	cells, cr, cc, rows := Layout(t.W, c0, c0, buf, cursor, tab)
+	if t.PendingWrap {
+		return fmt.Sprintf("cursor-left-in-pending-wrap: the terminal cursor sits on the last cell of row %d (deferred wrap) instead of cell (%d,%d) relative to the input start", t.CY, cr, cc)
+	}
+	if t.CX != cc {
+		return fmt.Sprintf("cursor-column: terminal cursor column %d, buffer cursor %d of %q is at column %d", t.CX, cursor, string(buf), cc)
+	}
+	r0 := t.CY - cr
+	if r0+rows-1 >= t.H+0 && !(r0+rows-1 == t.H && rows > 1) {
+		// the input would extend below the screen: impossible unless it scrolled; anchor says otherwise
+	}
+	// rows that start after an embedded newline (their indent area belongs to the secondary prompt)
+	nlRow := map[int]bool{}
+	{
+		row, col := 0, c0
+		for _, r := range buf {
+			if r == '\n' {
+				row++
+				col = c0
+				nlRow[row] = true
+				continue
+			}
+			n := 1
+			w := RuneWidth(r)
+			if r == '\t' {
+				n, w = tab, 1
+			}
+			for k := 0; k < n; k++ {
+				if w > 0 && col+w > t.W {
+					row++
+					col = 0
+				}
+				col += w
+			}
+		}
+	}
+	covered := map[[2]int]bool{}
+	for _, g := range cells {
+		row := r0 + g.Row
+		for k := 0; k < g.W; k++ {
+			covered[[2]int{g.Row, g.Col + k}] = true
+		}
+		if row < 0 {
+			continue
+		}
+		if row >= t.H {
+			return fmt.Sprintf("cursor-row: glyph %q of the buffer belongs on row %d below the screen (cursor row %d, cursor cell row offset %d)", string(g.R), row, t.CY, cr)
+		}
+		c := t.Rows[row][g.Col]
+		got := c.R
+		if got == 0 {
+			got = ' '
+		}
+		if got != g.R || c.Comb != g.Comb || (g.W == 2 && (g.Col+1 >= t.W || !t.Rows[row][g.Col+1].Cont)) || c.Cont {
+			return fmt.Sprintf("glyph: cell (%d,%d) shows %q%q, expected %q%q (row text %q)", row, g.Col, string(got), c.Comb, string(g.R), g.Comb, t.RowString(row))
+		}
+	}
+	// prompt cells and blanks on the input rows
+	lastRow := rows - 1
+	for k := 0; k <= lastRow; k++ {
+		row := r0 + k
+		if row < 0 || row >= t.H {
+			continue
+		}
+		for col := 0; col < t.W; col++ {
+			if covered[[2]int{k, col}] {
+				continue
+			}
+			if k == 0 && col < c0 {
+				continue // prompt cells, checked below
+			}
+			if nlRow[k] && col < c0 {
+				continue // secondary prompt / multiline column area
+			}
+			if !t.Rows[row][col].Blank() {
+				return fmt.Sprintf("ghost: cell (%d,%d) of the input area shows %q but nothing belongs there (row text %q, buffer %q)", row, col, string(t.Rows[row][col].R), t.RowString(row), string(buf))
+			}
+		}
+	}
+	if r0 >= 0 && r0 < t.H {
+		col := 0
+		for _, r := range promptLast {
+			w := RuneWidth(r)
+			if w == 0 {
+				continue
+			}
+			got := t.Rows[r0][col].R
+			if got == 0 {
+				got = ' '
+			}
+			if got != r {
+				return fmt.Sprintf("prompt: cell (%d,%d) shows %q, the prompt has %q there (row text %q)", r0, col, string(got), string(r), t.RowString(r0))
+			}
+			col += w
+		}
+	}
+	if !relaxedBelow {
+		for row := r0 + lastRow + 1; row < t.H; row++ {
+			if row < 0 {
+				continue
+			}
+			for col := 0; col < t.W; col++ {
+				if !t.Rows[row][col].Blank() {
+					return fmt.Sprintf("below: row %d below the input shows %q (nothing is displayed there)", row, t.RowString(row))
+				}
+			}
+		}
+	}
+	return ""
 }
